@@ -41,11 +41,23 @@ def project_file(options: dict, body: str = "") -> str:
     return "\n".join(lines) + "\n"
 
 
+CAPTURED = {}      # "docs": the ford.output.Documentation instance of the last build (project, pages ...)
+
+
 def build_site(root: Path, project_md: str = "project.md", cli=None, graphs_real=False):
-    """Run FORD on root/project_md in this process.  -> (returncode-ish, captured output)
-    Raises whatever escapes ford.main (SystemExit included)."""
+    """Run FORD on root/project_md in this process.  -> (settings, captured output)
+    Raises whatever escapes ford.main (SystemExit included).  The Documentation object that
+    ford.main builds is kept in CAPTURED["docs"] (observation only)."""
     import ford
+    import ford.output
     fordapi.reset_global_state()
+    CAPTURED.clear()
+    orig_init = ford.output.Documentation.__init__
+
+    def spy(self, *a, **k):
+        CAPTURED["docs"] = self
+        return orig_init(self, *a, **k)
+    ford.output.Documentation.__init__ = spy
     pfile = root / project_md
     text = pfile.read_text(encoding="utf-8")
     buf = io.StringIO()
@@ -60,6 +72,7 @@ def build_site(root: Path, project_md: str = "project.md", cli=None, graphs_real
             ford.main(data, docs)
     finally:
         os.chdir(cwd)
+        ford.output.Documentation.__init__ = orig_init
     return data, buf.getvalue()
 
 
